@@ -163,8 +163,8 @@ PROPS['C05']['eb'] = [EB_INBOUND, _eb_engine(thorough_only=True)]
 PROPS['C07']['eb'] = [_eb_engine()]
 PROPS['C11']['eb'].append(EB_WIRE_IN)
 
-EB_ALIAS = {'name': 'alias', 'crate': 'gneiss-mqtt', 'module_dir': 'gneiss_mqtt', 'filters': ['alias::'], 'tests': ['outbound_alias_resolvers_never_mislead_the_server'], 'timeout': 3000}
-EB_WS = {'name': 'ws', 'crate': 'gneiss-mqtt', 'module_dir': 'gneiss_mqtt', 'features': ['threaded-websockets'], 'raw_filters': ['verif_bounded_ws'], 'tests': ['ws_wrapper_read_concatenates_payloads'], 'timeout': 3000}
+EB_ALIAS = {'name': 'alias', 'crate': 'gneiss-mqtt', 'module_dir': 'gneiss_mqtt', 'filters': ['alias::'], 'tests': ['outbound_alias_resolvers_never_mislead_the_server', 'outbound_lru_alias_range_at_the_u16_boundary'], 'timeout': 3000}
+EB_WS = {'name': 'ws', 'crate': 'gneiss-mqtt', 'module_dir': 'gneiss_mqtt', 'features': ['threaded-websockets'], 'raw_filters': ['verif_bounded_ws'], 'tests': ['ws_wrapper_read_concatenates_payloads', 'ws_wrapper_write_no_loss_no_duplication_under_would_block'], 'timeout': 3000}
 PROPS['C17']['eb'] = [EB_ALIAS]
 PROPS['C13']['eb'] = [EB_WS]
 
